@@ -400,7 +400,12 @@ def work(cfg):
 def main(tier='quick', seed=0, part=None):
     run = Run(PROP, tier, seed, level='fault_enumeration')
     cfgs = grid(tier)
-    if part:
+    if part and '/' in part:
+        # debugging aid: shard i/n of the configuration list (the evidence
+        # of a shard is marked non-exhaustive)
+        i, n = (int(x) for x in part.split('/'))
+        cfgs = sorted(cfgs, key=est_cost, reverse=True)[i::n]
+    elif part:
         cfgs = [c for c in cfgs if c['part'] == part]
     cfgs = par.shuffled(cfgs, seed)
     cfgs.sort(key=est_cost, reverse=True)      # stable: seed permutes ties
